@@ -510,6 +510,12 @@ API_SEQS = [
     (["pause A", "pause A", "resume A"], True),
     (["pause A", "resume A", "resume A", "pause B"], False),
     (["lose A", "pause A", "resume A"], True),
+    # the pause asked for from inside connectionMade() of a subchannel the peer opened (one subchannel: nothing else can be opened
+    # while the connection is not read)
+    (["madepause A"], False),
+    (["madepause A", "resume A"], True),
+    (["madepause A", "resume A", "pause A"], False),
+    (["madepause A", "stop A"], True),
 ]
 
 
@@ -522,13 +528,18 @@ def subchannel_api_seq(seq, expect_flow):
     try:
         w.connect()
         w.listen("F", "p")
+        single = seq[0].startswith("madepause")
+        if single:
+            w.made_hooks = {("F", "p#in1"): lambda proto: proto.transport.pauseProducing()}
+            seq = seq[1:]
         pa = w.open("L", "p")
-        pb = w.open("L", "p")
-        pa.transport.write(b"a0")
-        pb.transport.write(b"b0")
+        pb = None if single else w.open("L", "p")
+        if not single:
+            pa.transport.write(b"a0")
+            pb.transport.write(b"b0")
         w.pump()
         built = w.sides["F"].factories["p"].built
-        apps = {"A": built[0], "B": built[1]}
+        apps = {"A": built[0]} if single else {"A": built[0], "B": built[1]}
         transports = {k: a.transport for k, a in apps.items()}
 
         def got():
@@ -542,7 +553,7 @@ def subchannel_api_seq(seq, expect_flow):
                 out["raised"].append("%s: %s: %s" % (step, type(e).__name__, str(e)[:80]))
             w.pump()
         n0 = got()
-        for p_, tag in ((pa, b"a1"), (pb, b"b1")):
+        for p_, tag in ((pa, b"a1"),) + (((pb, b"b1"),) if pb is not None else ()):
             try:
                 p_.transport.write(tag)
             except Exception:
